@@ -570,7 +570,12 @@ static int _yr_atoms_choose(
 
     while (child != NULL)
     {
-      FAIL_ON_ERROR(_yr_atoms_choose(config, child, &item, &quality));
+      FAIL_ON_ERROR_WITH_CLEANUP(
+          _yr_atoms_choose(config, child, &item, &quality),
+          {
+            yr_atoms_list_destroy(*chosen_atoms);
+            *chosen_atoms = NULL;
+          });
 
       if (quality > max_quality)
       {
@@ -601,7 +606,12 @@ static int _yr_atoms_choose(
 
     while (child != NULL)
     {
-      FAIL_ON_ERROR(_yr_atoms_choose(config, child, &item, &quality));
+      FAIL_ON_ERROR_WITH_CLEANUP(
+          _yr_atoms_choose(config, child, &item, &quality),
+          {
+            yr_atoms_list_destroy(*chosen_atoms);
+            *chosen_atoms = NULL;
+          });
 
       if (quality < min_quality)
         min_quality = quality;
